@@ -14,7 +14,7 @@ import (
 // in neighbouring tables, other types and other collections. Every COUNT from 1 to n+1, both
 // directions, MATCH patterns; the cursor is chained until it comes back empty.
 
-var ScanPool = []string{"a", "a:", "a:b", "ab", "b", "\x00", "\xff", "a;"}
+var ScanPool = []string{"a", "0", "a:", "a:b", "ab", "b", "\x00", "\xff", "a;"} // "0": the cursor redis clients start an iteration with
 var ScanDecoyTables = []string{"s", "t2", "t\x00", "u"}
 var ScanPatterns = []string{"*", "a*", "*b", "?", "ab", "a:*"}
 
